@@ -60,6 +60,11 @@ def gen_cases(rng, tier: str) -> list[dict]:
             elif r < 0.5 and prior:
                 c["warm"] = [c["prior"] or c["p"], c["p"]]
             cases.append(c)
+    # products evaluated where a factor vanishes: the expression is defined there (value 0), so every route must answer
+    for e, pt in common.vanishing_products(rng, common.sizes(tier, 60, 800)):
+        c = common.make_eval_case("vanishing-factor", e, pt)
+        c.update(x=rng.choice(common.names_of(e)), prior=None)
+        cases.append(c)
     return cases
 
 
